@@ -11,6 +11,7 @@ mod nlc;
 mod width;
 mod ysrc;
 mod rng;
+mod ser;
 mod total;
 mod util;
 
@@ -35,6 +36,7 @@ fn main() {
         "ctstep" => ct::main(&args[2..]),
         "ysrc" => ysrc::main(&args[2..]),
         "total" => total::main(&args[2..]),
+        "ser" => ser::main(&args[2..]),
         "total-child" => total::child_main(),
         "width" => width::main(&args[2..]),
         x => {
